@@ -110,6 +110,33 @@ pub fn record(seed: u64, nseeds: usize, out: &str, maxlen: i64) {
             None => t.emit(json!({"op": "bootstrap_counts", "n": n2, "b": b2, "out": "panic"})),
         }
     }
+    // long inputs whose length is not a power of two (n = 2000, 1500): pooled index counts of 2e6 draws in eight equal bins (a bias of a
+    // few per cent towards some positions leaves the band), and sixty paired shuffles (with key collisions of any kind the pairs must
+    // still move together)
+    for n in [2000usize, 1500] {
+        let d: Vec<f64> = (0..n).map(|i| i as f64 + 0.5).collect();
+        let (mut counts, mut foreign, mut shape_ok, mut total) = (vec![0i64; 8], 0i64, true, 0i64);
+        for _ in 0..(2_000_000 / (n * 100)) {
+            match guard(|| bootstrap(&d, 100)) {
+                Some(rows) => { if rows.len() != 100 || rows.iter().any(|r| r.len() != n) { shape_ok = false; }
+                    for r in rows.iter() { for v in r { let i = idx_of(*v, n); if i < 0 { foreign += 1 } else { counts[(i as usize * 8) / n] += 1; total += 1; } } } }
+                None => shape_ok = false,
+            }
+        }
+        t.emit(json!({"op": "bootstrap_long", "n": n, "out": "ok", "counts": counts, "total": total, "foreign": foreign, "shape_ok": shape_ok}));
+        let d2: Vec<f64> = d.iter().map(|v| -v).collect();
+        let (mut perm_ok, mut paired_ok, mut moved) = (true, true, false);
+        for _ in 0..60 {
+            match guard(|| shuffle_two(&d, &d2)) {
+                Some((a, b)) => { let mut seen = vec![false; n];
+                    if a.len() != n || b.len() != n { perm_ok = false; continue; }
+                    for (x, y) in a.iter().zip(&b) { let i = idx_of(*x, n); if i < 0 || seen[i as usize] { perm_ok = false; } else { seen[i as usize] = true; } if *y != -*x { paired_ok = false; } }
+                    if a.iter().zip(&d).any(|(x, y)| x != y) { moved = true; } }
+                None => perm_ok = false,
+            }
+        }
+        t.emit(json!({"op": "shuffle_two_long", "n": n, "calls": 60, "out": "ok", "perm_ok": perm_ok, "paired_ok": paired_ok, "moved": moved}));
+    }
     // per resample index and per slot: position frequencies over many separate calls with a small number of resamples
     for (n, b) in [(2usize, 1usize), (3, 1), (5, 2), (8, 3), (13, 1)] {
         let d: Vec<f64> = (0..n).map(|i| i as f64 + 0.5).collect();
